@@ -531,7 +531,7 @@ class Flow(object):
                     elem = True
                     base = unwrap(base.c[0])
                 if base is not None and base.k == 'ref' and base.decl.get('kind') in LOCAL_KINDS:
-                    self.defs.setdefault(base.decl.get('lid'), []).append(('elem' if elem else 'expr', n.c[1]))
+                    self.defs.setdefault(base.decl.get('lid'), []).append(('elem' if elem else 'expr', n.c[1], n))
             elif n.k in ('call', 'construct') and n.callee:
                 cal = n.callee
                 ptypes = split_sig(cal.get('sig', '()'))
@@ -590,6 +590,13 @@ class Flow(object):
         for d in self.defs.get(lid, []):
             if d[0] in ('expr', 'elem'):
                 out |= self.origins(d[1], seen, depth + 1)
+                if len(d) > 2 and d[2] is not None:
+                    # control dependence: the conditions under which the assignment happens
+                    for anc in d[2].ancestors():
+                        if anc.k == 'if' and anc.c[2] is not None:
+                            out |= self.origins(anc.c[2], seen, depth + 1)
+                        elif anc.k in ('while', 'for') and anc.c[0 if anc.k == 'while' else 1] is not None:
+                            out |= self.origins(anc.c[0 if anc.k == 'while' else 1], seen, depth + 1)
             else:
                 call = d[1]
                 out.add(('out', call.callee.get('name'), call, d[2]))
